@@ -61,6 +61,17 @@ ADVANCE_CALLERS = {
     "libtw2_huffman::Huffman::decompress_impl": "advance(len) with len = Ok value of decompress_unsafe(uninitialized_mut())",
     B + "traits::read_buffer_ref": "advance(n) with n = Ok value of reader.read(uninitialized_mut())",
     "libtw2_teehistorian::bitmagic::CallbackExt::read_buffer_ref": "advance(n) with n = Some value of callback.read_at_most(uninitialized_mut())",
+    # seen only by the thorough tier (crates outside the library core)
+    "libtw2_huffman_reference::Huffman::compress_impl": "advance(l) with l = the non-negative return of the C reference's huffman_compress(.., uninitialized_mut().as_mut_ptr(), remaining()) (FFI trusted to write l <= remaining bytes)",
+    "libtw2_huffman_reference::Huffman::decompress_impl": "same with huffman_decompress",
+    "libtw2_socket::Socket::receive_impl": "advance(len) with len = Ok value of UdpSocket::recv_from(uninitialized_mut()), carried through non_block() and Result::map into the closure",
+}
+# R4 exceptions: the amount reaches advance through a closure parameter, which the def-use walk does not cross
+ADVANCE_AMOUNT_REVIEWED = {
+    "libtw2_socket::Socket::receive_impl::{closure#0}":
+        "`result.map(|(len, addr)| { buf.advance(len); .. })`: result is the Some/Ok value of non_block(v4|v6.recv_from(buf_slice)) with "
+        "buf_slice = buf.uninitialized_mut() of the same view taken at the top of the function; recv_from returns the number of bytes "
+        "it wrote at the start of the slice",
 }
 
 
@@ -70,6 +81,10 @@ def run(ctx, rep):
     write_back(ctx, rep)
     counter_discipline(ctx, rep)
     caller_protocol(ctx, rep)
+    if ctx.tier == "thorough":
+        from .. import witness
+        n = witness.run(ctx, rep, "R6-compile-fail-witnesses", ("W1", "W2", "W3", "W4", "W5", "W6"))
+        rep.floor("R6-compile-fail-witnesses", n, 6, "type-level witnesses W1-W6 of witness/src/lib.rs")
 
 
 def unsafe_inventory(ctx, rep):
@@ -296,6 +311,10 @@ def caller_protocol(ctx, rep):
                             if isinstance(y, tuple) and y and y[0] == "call" and y[1] == B + "BufferRef::uninitialized_mut":
                                 if strip_sites(ir.access_path(y[2][0])) == strip_sites(ir.access_path(recv)):
                                     ok = True
+            if not ok and b.id in ADVANCE_AMOUNT_REVIEWED:
+                rep.ob(rule, "%s | advance amount" % b.id, True, "reviewed: " + ADVANCE_AMOUNT_REVIEWED[b.id], b.loc(t.get("ln")))
+                rep.exempt("%s | advance amount" % b.id, ADVANCE_AMOUNT_REVIEWED[b.id])
+                continue
             rep.ob(rule, "%s | advance amount" % b.id, ok,
                    "advance(n): n is returned by the callee that was given this view's uninitialized_mut(): %s" % show(amount)[:120]
                    if ok else "advance(%s) is not the result of the call that filled uninitialized_mut()" % show(amount)[:120], b.loc(t.get("ln")))
